@@ -29,7 +29,7 @@ func randomCfg(rng *rand.Rand) *Cfg {
 	nn := 2 + rng.Intn(2)
 	type nstate struct {
 		freeGpu, freeCpu int
-		groups          map[string]int // group -> free memory
+		groups           map[string]int // group -> free memory
 	}
 	ns := map[string]*nstate{}
 	var nodeNames []string
